@@ -133,6 +133,9 @@ class Ctx:
     # ------------------------------------------------------------------ proof
     def build_common(self):
         d = os.path.join(ROOT, 'coq', 'common')
+        vs = glob.glob(os.path.join(d, '*.v'))
+        if all(os.path.exists(v + 'o') and os.path.getmtime(v + 'o') >= os.path.getmtime(v) for v in vs):
+            return True, 'up to date'
         rc, o, e, _ = sh('coq_makefile -f _CoqProject -o Makefile >/dev/null 2>&1 && make -j8 2>&1', cwd=d, timeout=600)
         return rc == 0, o + e
 
